@@ -386,7 +386,7 @@ func init() {
 		}()
 
 		// ---- constants: the model must be inside its modelled fragment
-		fmt.Fprintf(cw, "K consts\n")
+		fmt.Fprintf(cw, "K consts\nE\n")
 		fmt.Fprintf(w, "C consts\nspecs-in-fragment true\nversion %s\ncompatible %s\n", hxs(c07RepoVersion(c)), c07RepoCompat(c))
 
 		streams := c07CurrentStreams(c, c.N(14, 300))
@@ -596,7 +596,16 @@ func init() {
 					out = "gate:pass"
 				}
 				fmt.Fprintf(cw, "B %s %s %s\n", label, proj, hx(mod))
-				if err != nil && kind != "PANIC" {
+				if kind == "err:inner:bad" && uint64(len(mod)-32) >= binary.LittleEndian.Uint64(mod[24:32]) {
+					// the body was read completely and proto.Unmarshal rejected it: st.inner holds the
+					// fields decoded before the error (not observed; the model calls this state IPartial)
+					fmt.Fprintf(w, "g %s %s inner=?\n", label, out)
+					var sb strings.Builder
+					for _, l := range c05Dump(st.VerifInner()) {
+						sb.WriteString(l + "|")
+					}
+					c.Or.Extra["partial_inner_after_rejected_body"] = "a body that proto.Unmarshal rejects leaves the fields decoded before the error in st.inner (header BodySize reduced by 1): " + c05Trunc(sb.String())
+				} else if err != nil && kind != "PANIC" {
 					fmt.Fprintf(w, "g %s %s inner=%s\n", label, out, c07MarshalHex(st))
 				} else {
 					fmt.Fprintf(w, "g %s %s\n", label, out)
